@@ -356,7 +356,10 @@ class Mirror:
 # --------------------------------------------------------------------------
 # workload: builder operations on the real builder and on the mirror
 # --------------------------------------------------------------------------
-STATIC_SIMPLE = [1, 2, 7, 0.5, 'a', 'b', None, (1, 2), ('x', 3), True, 't1', 't0-x', ()]
+STATIC_SIMPLE = [1, 2, 7, 0.5, 'a', 'b', None, (1, 2), ('x', 3), True, 't1', 't0-x', (),
+                 # strings that look like predictable graph keys (task name + position / counter): a
+                 # static input equal to a key of the dask graph is read by dask as a reference
+                 't0-1', 't1-2', 't0-0', 't2-3', 't0', 'wf-t1']
 
 
 class Violation(Exception):
@@ -944,6 +947,9 @@ def make_distributed_stubs(env_ref, stats):
 # --------------------------------------------------------------------------
 # one simulated run: one workflow, several executions
 # --------------------------------------------------------------------------
+_MISSING = object()
+
+
 class _UuidStub:
     """Seeded uuid4.  Distinct by construction (a counter is part of the value), so that
     zeroed or exhausted tapes - as produced by shrinking - can never fabricate equal keys."""
@@ -1073,7 +1079,7 @@ def _execute(cfg, tape, world, wf, m, multi, viol, stats, h, want_trace):
     wfmod = _P['wfmod']
     disp = _P['disp']
     dask_local = _P['dask_local']
-    saved = (wfmod.uuid, disp.conf.dask_dispatcher, dask_local.Queue)
+    saved = (getattr(wfmod, 'uuid', _MISSING), disp.conf.dask_dispatcher, dask_local.Queue)
     dd = _P['dd']
     saved_dd = None
     wfmod.uuid = _UuidStub(tape)
@@ -1126,7 +1132,12 @@ def _execute(cfg, tape, world, wf, m, multi, viol, stats, h, want_trace):
     finally:
         if kernel is not None:
             kernel.shutdown()
-        wfmod.uuid, disp.conf.dask_dispatcher, dask_local.Queue = saved
+        _uuid_saved, disp.conf.dask_dispatcher, dask_local.Queue = saved
+        if _uuid_saved is _MISSING:      # the module under test does not import uuid (any more)
+            if hasattr(wfmod, 'uuid'):
+                del wfmod.uuid
+        else:
+            wfmod.uuid = _uuid_saved
         if saved_dd is not None:
             (dd.Client, dd.LocalCluster, dd.Future, dd.get_client, dd.secede, dd.rejoin) = saved_dd
         _CUR[0] = None
